@@ -339,6 +339,58 @@ Definition op_eqb (a b : N * bool * (N * N)) : bool :=
   let '(n2, e2, (k2, c2)) := b in
   N.eqb n1 n2 && Bool.eqb e1 e2 && N.eqb k1 k2 && N.eqb c1 c2.
 
+(* ---- histories of operations on ONE stream session ------------------------------------------- *)
+(* exchange() / cancel() / close() in any order on the same HttpStreamSession; all requests go to the
+   session's exchange URL and consume the same script of outcomes.  cancel() sets _cancelled and drops
+   the state token BEFORE it posts, whatever the POST then does; exchange() keeps the token (a failed
+   exchange may be repeated by the caller: that is a new exchange request); close() is a no-op. *)
+Inductive hop := HExchange | HCancel | HClose.
+
+Definition hop_run (o : hop) (st : sess) (fs : list outcome) (ext_ok : bool) : xtrace :=
+  match o with
+  | HExchange => exchange st fs ext_ok
+  | HCancel => cancel st fs
+  | HClose => {| xsends := 0; xext := false; xfin := XSwallowed |}
+  end.
+
+Definition sess_after (o : hop) (st : sess) : sess :=
+  match o with
+  | HCancel => cancel_state_after st
+  | HExchange | HClose => st
+  end.
+
+Fixpoint hist_run (st : sess) (ops : list hop) (fs : list outcome) (ext_ok : bool) : list (hop * xtrace) :=
+  match ops with
+  | [] => []
+  | o :: r =>
+      let t := hop_run o st fs ext_ok in
+      (o, t) :: hist_run (sess_after o st) r (skipn (xsends t) fs) ext_ok
+  end.
+
+(* requests issued by the cancel() calls / by all calls of a history *)
+Fixpoint cancel_sends (l : list (hop * xtrace)) : nat :=
+  match l with
+  | [] => 0
+  | (HCancel, t) :: r => xsends t + cancel_sends r
+  | _ :: r => cancel_sends r
+  end.
+Fixpoint total_sends (l : list (hop * xtrace)) : nat :=
+  match l with
+  | [] => 0
+  | (_, t) :: r => xsends t + total_sends r
+  end.
+
+(* correspondence entry: (start state, operations, outcomes, externalisation ok) -> per operation (requests, final) *)
+Definition run_hist (i : sess * list hop * list outcome * bool) : list (N * (N * N)) :=
+  let '(st, ops, fs, ext_ok) := i in
+  map (fun e => (N.of_nat (xsends (snd e)), xfinal_code (xfin (snd e)))) (hist_run st ops fs ext_ok).
+Fixpoint hist_eqb (a b : list (N * (N * N))) : bool :=
+  match a, b with
+  | [], [] => true
+  | (n1, (k1, c1)) :: r1, (n2, (k2, c2)) :: r2 => N.eqb n1 n2 && N.eqb k1 k2 && N.eqb c1 c2 && hist_eqb r1 r2
+  | _, _ => false
+  end.
+
 (* _compute_delay alone: (config, attempt, parsed retry_after, jitter draw) -> (uniform bound, delay) *)
 Definition run_delay (i : config * nat * ra_hdr * fl) : fl * fl * option fl :=
   let '(c, a, h, j) := i in
